@@ -47,7 +47,10 @@ Ltac crush :=
           | H : ¬ is_Some (Some _) |- _ => exfalso; apply H; eexists; reflexivity
           end).
 
-Ltac dex := repeat match goal with |- context [existsb ?f ?l] => destruct (existsb f l) eqn:? end.
+Ltac dex := repeat match goal with
+                   | |- context [active_overwritten ?l] => destruct (active_overwritten l) eqn:?
+                   | |- context [existsb ?f ?l] => destruct (existsb f l) eqn:?
+                   end.
 
 (* ================= config entries ================= *)
 Section ConfigEntries.
@@ -174,7 +177,7 @@ Qed.
 (* ================= CA roots ================= *)
 Record rreq := RReq { rr_idx : N; rr_cidx : N; rr_roots : list rootreq }.
 Definition roots_valid (rs : list rootreq) : bool :=
-  bool_decide (count_active rs = 1%nat) && negb (existsb (fun r => bool_decide (r.1 = "")) rs).
+  bool_decide (count_active rs = 1%nat) && negb (active_overwritten rs) && negb (existsb (fun r => bool_decide (r.1 = "")) rs).
 Definition roots_write (idx : N) (rs : list rootreq) (s : st) : st :=
   index_set ix_roots idx (s <| ca_roots := insert_roots idx (ca_roots s) rs |>).
 
@@ -265,26 +268,10 @@ Definition W_autopilot : cond_write st apreq :=
      (fun _ _ => true)
      (fun s c => autopilot_set_txn (ar_idx c) (ar_payload c) s).
 
-(* honest once a configuration exists (the leader writes one when it is established) *)
-Theorem autopilot_honest_present : honest_on (fun s _ => is_Some (autopilot s)) W_autopilot.
+(* index zero stands for "no configuration stored", as AutopilotConfig() shows it to a reader *)
+Theorem autopilot_honest : honest W_autopilot.
 Proof.
-  split; intros s [idx p cidx] [x Hx]; unfold W_autopilot; cbn; unfold autopilot_cas; rewrite Hx; crush.
-Qed.
-
-(* always: reports honestly what it did, and does nothing unless the index matched *)
-Theorem autopilot_reported_iff_applied s c :
-  (cw_ok W_autopilot s c = true -> cw_matched W_autopilot s c = true /\ cw_post W_autopilot s c = cw_write W_autopilot s c) /\
-  (cw_ok W_autopilot s c = false -> cw_post W_autopilot s c = s).
-Proof.
-  destruct c as [idx p cidx]. unfold W_autopilot; cbn. unfold autopilot_cas. destruct (autopilot s); crush.
-Qed.
-
-(* REFUTED in general: with no configuration stored a reader is shown index 0, yet the command
-   refuses expected index 0 (every sibling command accepts it) *)
-Theorem autopilot_honest_refuted : ~ honest W_autopilot.
-Proof.
-  intros [H _ _]. specialize (H st0 (APReq 5 1 0) I). cbn in H.
-  destruct H as [_ H]. discriminate H. split; reflexivity.
+  split; intros s [idx p cidx] _; unfold W_autopilot; cbn; unfold autopilot_cas; destruct (autopilot s); crush.
 Qed.
 
 Theorem autopilot_effective s c :
@@ -572,7 +559,7 @@ Section Bounded.
       { unfold autopilot_set_txn. bsplit Hb. repeat split; try assumption; cbn; lia. }
       destruct cas; cbn [fst]; [|assumption].
       apply bool_result_bounded; [assumption|]. intros s'. unfold autopilot_cas.
-      destruct (autopilot s); [|discriminate]. destruct (negb _); [discriminate|]. got. assumption.
+      destruct (autopilot s); destruct (negb _); try discriminate; got; assumption.
     - apply nil_result_bounded; [assumption|]. intros s'. apply token_batch_bounded; assumption.
     - cbn [fst]. apply token_delete_bounded. assumption.
     - apply bool_result_bounded; [assumption|]. intros s'. unfold feature_gate_update.
